@@ -91,6 +91,12 @@ TABLE = {
         note="Trusted: the controller (a stall of 6 s is reported as a difference, never ignored); solo runs as reference.",
         ref="DESIGN.md section 4, C13",
     ),
+    "C11": dict(
+        technique="provenance oracle: the model renderer records each construct's token range and spelling token, the layout engine each token's real (file, line, column) under random layouts with file-changing linemarkers; lockstep walk of the returned AST against the annotated expected AST; illegal-character injection and token deletion for error locations",
+        text="Hypothesis-generated translation units are laid out with blanks, tabs, newlines and linemarkers (8 forms, changing line and file) between arbitrary tokens. Every coordinate must be the start of a real token inside its construct's token range, exactly the spelling token for identifiers, constants and declared names, and present on declarations, statements, identifiers, constants and operators. Every injection of @ ` \\ /* // at every token boundary must be reported at exactly that position; parse errors after single-token deletions must name a real token. Statistical over programs and layouts; per program the injection positions are enumerated completely (<= 80 tokens).",
+        note="Trusted: renderer provenance + layout engine (cross-checked: every generated text is accepted and C09 verifies token positions independently); AST shape as established by C02/C03/C05.",
+        ref="DESIGN.md section 4, C11",
+    ),
 }
 
 NOT_YET = "check not built yet in this session (work in progress; see DESIGN.md section 9 for the order of work)"
